@@ -16,7 +16,8 @@ import gsm_shared
 RULE = ("firmware (unmodified rfch.c via rfch_get_params): complete enumeration of HSN 1..63 x T1R 0..63 x T2 x T3 x N 1..64 "
         "at MAIO in {0,1,N-1,63} (thorough; quick: MAIO 0 and N-1, T1R on a seed-rotated stride of 4) plus HSN 0 over every FN "
         "(thorough: N 1..64; quick: every 7th N); simulator: HoppingParams.resolve enumerated over all (HSN 0..63, T2, T3, N) "
-        "with rotating T1/MAIO, plus Hypothesis with arbitrary channel lists (tuples as the transceiver stores them), "
+        "with rotating T1/MAIO, plus Hypothesis with arbitrary channel lists (tuples as the transceiver stores them; sorted, reversed, unsorted and "
+        "with repeated channels; with the firmware's band flag bits 0x8000/0x4000 on all, none or some entries - the enumeration's table carries them too), "
         "MAIO 0..63 and raw FN, each case also sent to the firmware driver (direct agreement). Oracle: refs/ref_hop "
         "(spec text with div/mod). Non-trivial: HSN != 0 and M' >= N (deviation branch) - counted.")
 LEVEL = "exploration"
@@ -219,6 +220,12 @@ def hop_case(draw):
         # the same channel more than once in the allocation (the result is still MA[MAI])
         m_ = draw(st.integers(1, n - 1))
         arfcns = [arfcns[i % m_] for i in range(n)]
+    # the firmware carries ARFCNs with band flag bits (ARFCN_PCS 0x8000, ARFCN_UPLINK 0x4000): part of the channel identity
+    flags = draw(st.sampled_from([0, 0, 0x8000, 0x4000, 0xc000, "mixed"]))
+    if flags == "mixed":
+        arfcns = [a | ((0, 0x8000, 0x4000, 0xc000)[(a * 7 + i) % 4]) for i, a in enumerate(arfcns)]
+    else:
+        arfcns = [a | flags for a in arfcns]
     return {"hsn": draw(st.integers(0, 63)), "maio": draw(st.one_of(st.integers(0, 63), st.integers(0, n - 1))),
             "arfcns": arfcns, "fn": draw(S.fn()), "tuples": draw(st.booleans())}
 
